@@ -72,6 +72,11 @@ CLAIMED["C13"] = dict(
    note="float-as-real; the sum of a slice is an uninterpreted function whose defining equations are instantiated per occurrence (engine/sumtheory.go); MaybeFloat.V dispatch assumed; tableAndColumnsPreferredWidths trusted to return min-content <= max-content; distributeExcessWidth trusted to write only the column widths; loops havoc the whole heap (modifies anything) and the invariants restate what is needed",
    ref="DESIGN.md §4 C13")
 
+CLAIMED["C14"] = dict(
+   text="The link / anchor / bookmark clauses are under contract and proved: makeBookmarkTree keeps, for every sequence of bookmark levels >= 1, the invariant (open depths) + (skipped levels) == level of the previous bookmark (sum over the stack), under which its internal consistency panic can never fire, the stack is never popped when empty, the parent list of each new node exists, and all four loops terminate — bookmark entries form an outline consistent with their levels and carry the page index of the page being visited; gatherLinksAndBookmarks writes an anchor only for a non-empty name not yet defined on the page (first element with that id wins) and records a bookmark only with a label and a non-zero level; resolveLinks emits each anchor name once (first defining page) and keeps an internal link only if its target is a defined anchor (links to missing anchors are dropped), external links unchanged; rectangleAabb returns the axis-aligned bounding box of the four transformed corners; Mins/Maxs return the least/greatest element. NOT under contract: the backend call sequence (one AddPage per page, path-before-paint, fonts before text), finiteness of the numbers passed, metadata forwarding, 'bookmarks point to existing pages' beyond the page index being the loop index.",
+   note="bookmark levels >= 1 is a precondition (established by the bookmark-level validator and the level != 0 test, not proved through the box tree); HitArea / IsAttachment / Rectangle.Unpack trusted frame-only; getMatrix preconditions waived at the call (C17); map iteration order of page.anchors is abstracted (any order); float-as-real",
+   ref="DESIGN.md §4 C14")
+
 NOT_YET = {}
 
 NA = {
